@@ -167,6 +167,10 @@ class Engine:
             for a in self.m.axioms:
                 it = Interp(self, None, Decider([]), spec_only=True)
                 ax.append(it.quantify_fn(a))
+            for f in self.m.fns.values():
+                if f.kind == "recursive" and f.options.get("axiom"):
+                    it = Interp(self, None, Decider([]), spec_only=True)
+                    ax.append(it.quantify_fn(f))
             self.axioms_cache = ax
         return self.axioms_cache + S.str_lit_axioms() + self.proved_lemmas
 
@@ -251,13 +255,20 @@ class Interp:
         self.path_id = ""
         self.cur_fs = fs  # contract whose loops/invariants are in scope (changes when inlining)
         self.bound = {}  # spec-level bound names (lambda params)
+        self.unfolded = set()
+        self.call_results = {}
+        self.call_ghosts = {}
+        self.in_axiom = False
+        self.defn_facts = []  # ground one-step unfoldings of recursive spec functions (definitional truths)
+        self.qdepth = 0  # > 0 while evaluating under a quantifier binder
+        self.unfolding = False
 
     # ------------------------------------------------------------------------------ obligations
     def oblige(self, kind, goal, info=None):
         if self.spec:
             return
         oid = f"{self.fname}/{kind}"
-        self.obls.append(Obligation(oid, self.st.pc, goal, kind, tuple(c for c, _ in self.dec.trace), info))
+        self.obls.append(Obligation(oid, self.st.pc + self.defn_facts, goal, kind, tuple(c for c, _ in self.dec.trace), info))
 
     def feasible(self):
         s = z3.Solver()
@@ -268,6 +279,15 @@ class Interp:
                 s.add(f)
         self.eng.stats["feas_checks"] += 1
         return s.check() != z3.unsat
+
+    def must_hold(self, c):
+        s = z3.Solver()
+        s.set("timeout", FEAS_TIMEOUT_MS)
+        for f in self.st.pc:
+            if not _has_quant(f):
+                s.add(f)
+        s.add(z3.Not(c))
+        return s.check() == z3.unsat
 
     def branch(self, c):
         c = z3.simplify(c)
@@ -335,6 +355,13 @@ class Interp:
             if p.sort.cls:
                 self.st.assume(z3.Implies(z3.Not(v.terms[0]), self.eng.isinstance_formula(p.t, p.sort.cls)))
 
+    def havoc_alloc(self, tag):
+        """callees and loop iterations may allocate: the allocated set only grows"""
+        na = z3.Const(S.fresh_name(f"alloc.{tag}"), z3.ArraySort(S.RefS, z3.BoolSort()))
+        r = z3.Const(S.fresh_name("ar"), S.RefS)
+        self.st.assume(z3.ForAll([r], z3.Implies(z3.Select(self.st.alloc, r), z3.Select(na, r))))
+        self.st.alloc = na
+
     def new_ref(self, clsname):
         r = z3.Const(S.fresh_name("new_" + clsname), S.RefS)
         self.st.assume(z3.Not(z3.Select(self.st.alloc, r)))
@@ -344,6 +371,10 @@ class Interp:
 
     # ------------------------------------------------------------------------------ coercion
     def coerce(self, v, so):
+        if isinstance(so, S.TFn) and isinstance(v, FuncObj):
+            if v.name not in so.names:
+                raise OutOfSubset(f"{v.name} is not one of {so.names}")
+            return V(so, (z3.IntVal(so.names.index(v.name)),))
         if not isinstance(v, V):
             raise OutOfSubset(f"cannot coerce {v!r} to {so}")
         if v.sort == so:
@@ -355,6 +386,11 @@ class Interp:
                 inner = self.coerce(v.sort.payload(v), so.inner)
                 return V(so, (v.terms[0],) + inner.terms)
             return so.some(self.coerce(v, so.inner))
+        if isinstance(v.sort, S.TOpt) and not isinstance(so, S.TOpt):
+            # narrowing: allowed when the path condition already excludes None (after `is not None`, `x or ...`)
+            if self.spec or self.must_hold(z3.Not(v.terms[0])):
+                return self.coerce(v.sort.payload(v), so)
+            raise OutOfSubset(f"possibly-None value used as {so}")
         if so is TReal and v.sort is TInt:
             return V(TReal, (z3.ToReal(v.t),))
         if so is TInt and v.sort is TBool:
@@ -385,6 +421,14 @@ class Interp:
         if so is TVal:
             return self.to_val(v)
         raise OutOfSubset(f"cannot coerce {v.sort} to {so}")
+
+    def coerce_any(self, v, so):
+        """coerce, accepting iterable views (dict.values() ...) where a list is expected"""
+        if isinstance(v, tuple) and isinstance(so, S.TList):
+            from .builtins import as_list
+
+            return self.coerce(as_list(self, v), so)
+        return self.coerce(v, so)
 
     def to_val(self, v):
         if v.sort is TVal:
@@ -417,6 +461,9 @@ class Interp:
 
     def eq(self, a, b):
         if not isinstance(a, V) or not isinstance(b, V):
+            for x, y in ((a, b), (b, a)):
+                if isinstance(x, V) and isinstance(x.sort, S.TFn) and isinstance(y, FuncObj):
+                    return x.t == (x.sort.names.index(y.name) if y.name in x.sort.names else -1)
             if isinstance(a, ClassObj) and isinstance(b, ClassObj):
                 return z3.BoolVal(a.name == b.name)
             if isinstance(a, ExcObj) and isinstance(b, ExcObj):
@@ -514,6 +561,7 @@ class Interp:
             # preconditions
             for r in fs.requires:
                 self.st.assume(self.ev_spec(r))
+            self.bind_ghosts(fs, self.st.locals)
             self.old_st = self.st.copy()
             self.entry_alloc = self.st.alloc
             if not self.feasible():
@@ -535,8 +583,10 @@ class Interp:
     def check_exit(self, fs, outcome):
         kind, val = outcome
         saved_locals = self.st.locals
-        # evaluate clauses over parameters at entry values (Python rebinding of params is local)
-        env = dict(self.old_st.locals)
+        # evaluate clauses over parameters at entry values (Python rebinding of params is local);
+        # a lemma's conclusion may also speak about the ghost locals its body introduced
+        env = dict(self.st.locals) if fs.kind == "lemma" else {}
+        env.update(self.old_st.locals)
         if kind == "normal":
             if fs.ret is not None and fs.ret is not TNone:
                 val = self.coerce(val, fs.ret)
@@ -545,6 +595,7 @@ class Interp:
             for k, (en, when, strict) in enumerate(fs.raises):
                 if when is not None and strict:
                     self.oblige(f"raises#{k}:not-raised", z3.Not(self.ev_when(when)), {"exc": en, "clause": "normal return although: " + ast.unparse(when)})
+            self.run_hints("exit")
             for k, e in enumerate(fs.ensures):
                 self.oblige(f"post#{k}", self.ev_spec(e), {"clause": ast.unparse(e)})
             self.check_frame(fs)
@@ -640,6 +691,12 @@ class Interp:
         self.st.locals = env
         self.old_st = self.st
         self.spec = True
+        self.in_axiom = True
+        if fs.kind == "recursive":
+            fns = self.eng.spec_ufuncs(fs)
+            app = V(fs.ret, tuple(f(*bound) for f in fns))
+            body = self.eval_pure_body(fs, env, unfolding=True)
+            return z3.ForAll(bound, fs.ret.eq(app, self.coerce(body, fs.ret)))
         if fs.kind == "axiom":
             rets = [s.value for s in fs.ghost_body if isinstance(s, ast.Return)]
             if len(rets) != 1:
@@ -712,8 +769,51 @@ class Interp:
     def st_AnnAssign(self, s):
         if s.value is not None:
             v = self.ev(s.value)
-            # annotation on a fresh local may refine an empty literal
+            # the annotation of a fresh local gives the sort of an empty literal
+            if isinstance(v, V) and getattr(v, "meta", None) == "emptylit":
+                so = self.sort_from_annotation(s.annotation)
+                if so is not None:
+                    try:
+                        v = self.coerce(v, so)
+                    except OutOfSubset:
+                        pass
             self.assign(s.target, v, ann=s.annotation)
+
+    def sort_from_annotation(self, a):
+        try:
+            return self._sfa(a)
+        except Exception:
+            return None
+
+    def _sfa(self, a):
+        if isinstance(a, ast.Constant) and isinstance(a.value, str):
+            return self._sfa(ast.parse(a.value, mode="eval").body)
+        if isinstance(a, ast.Constant) and a.value is None:
+            return TNone
+        if isinstance(a, ast.Name):
+            base = {"str": TStr, "int": TInt, "float": TReal, "bool": TBool, "Any": TVal}
+            if a.id in base:
+                return base[a.id]
+            if a.id in self.m.classes:
+                return S.TRef(a.id)
+            raise ValueError(a.id)
+        if isinstance(a, ast.BinOp) and isinstance(a.op, ast.BitOr):
+            l, r = self._sfa(a.left), self._sfa(a.right)
+            if r is TNone:
+                return S.TOpt(l)
+            if l is TNone:
+                return S.TOpt(r)
+            raise ValueError("union")
+        if isinstance(a, ast.Subscript) and isinstance(a.value, ast.Name):
+            h = a.value.id
+            args = a.slice.elts if isinstance(a.slice, ast.Tuple) else [a.slice]
+            if h in ("MutableMapping", "dict", "Mapping"):
+                return S.TDict(self._sfa(args[0]), self._sfa(args[1]), ordered=True)
+            if h in ("MutableSequence", "list", "Sequence", "Iterable"):
+                return S.TList(self._sfa(args[0]))
+            if h in ("MutableSet", "set", "AbstractSet"):
+                return S.TSet(self._sfa(args[0]))
+        raise ValueError("annotation")
 
     def st_AugAssign(self, s):
         cur = self.ev(_load(s.target))
@@ -854,6 +954,7 @@ class Interp:
             seqinfo = self.iter_source(s.iter)
             self.st.locals[idx_name] = seqinfo.init_index()
         # 1. invariant holds on entry
+        self.run_hints(f"loop{k}:init")
         for n, inv in enumerate(invs):
             self.oblige(f"inv_init#{k}.{n}", self.ev_spec(inv), {"clause": ast.unparse(inv)})
         # 2. havoc everything the body may modify
@@ -861,7 +962,13 @@ class Interp:
         if kind == "for":
             mods |= {idx_name}
             mods -= assigned_names([ast.Expr(value=s.target)]) if False else set()
+        frame_invs = self.loop_frame_invariants(s.body)
+        for key, mk in frame_invs:
+            self.oblige(f"loopframe_init#{k}:{key[0]}.{key[1]}", mk())
         self.havoc(mods, s.body, tag)
+        self.havoc_alloc(tag)
+        for key, mk in frame_invs:
+            self.st.assume(mk())
         for inv in invs:
             self.st.assume(self.ev_spec(inv))
         if kind == "for":
@@ -892,6 +999,9 @@ class Interp:
                 return  # continue after the loop with the state at the break
             if kind == "for":
                 self.st.locals[idx_name] = nxt
+            self.run_hints(f"loop{k}:step")
+            for key, mk in frame_invs:
+                self.oblige(f"loopframe_step#{k}:{key[0]}.{key[1]}", mk())
             for n, inv in enumerate(invs):
                 self.oblige(f"inv_step#{k}.{n}", self.ev_spec(inv), {"clause": ast.unparse(inv)})
             if dec0 is not None:
@@ -911,6 +1021,30 @@ class Interp:
                 self.st.assume(z3.Not(c))
             if not self.feasible():
                 raise PathEnd()
+            self.run_hints(f"loop{k}:exit")
+
+    def loop_frame_invariants(self, body):
+        """implicit invariant for every heap field the loop body may write: objects that existed at function entry
+        and are outside the contract's assigns set still hold their entry values (checked, not assumed)"""
+        out = []
+        fs = self.fs
+        if fs is None or fs.kind == "lemma" or self.frames:
+            return out
+        for key in sorted(self.body_heap_writes(body)):
+            tg = self.frame_targets(fs, key)
+            if tg == "all":
+                continue
+            so = self.m.field_sort(*key)[1]
+
+            def mk(key=key, tg=tg, so=so):
+                r = z3.Const(S.fresh_name("lf"), S.RefS)
+                cur = self.heap_arrays(self.st, key, so)
+                old = self.heap_arrays(self.old_st, key, so)
+                cond = z3.And(z3.Select(self.entry_alloc, r), *[r != t for t in tg])
+                return z3.ForAll([r], z3.Implies(cond, so.eq(so.select(cur, r), so.select(old, r))))
+
+            out.append((key, mk))
+        return out
 
     def havoc(self, names, body, tag):
         for n in sorted(names):
@@ -920,6 +1054,8 @@ class Interp:
                 self.st.locals[n] = nv
                 if isinstance(v.sort, S.TList):
                     self.st.assume(nv.terms[0] >= 0)
+                if isinstance(v.sort, S.TDict) and v.sort.ordered:
+                    self.assume_odict_wf(nv)
         # heap: fields written in the body (syntactic) or assigned by callees -> havoc whole field
         for key in self.body_heap_writes(body):
             so = self.m.field_sort(*key)[1]
@@ -1007,7 +1143,10 @@ class Interp:
         elif isinstance(target, ast.Subscript):
             c = self.ev(target.value)
             k = self.ev(target.slice)
-            if isinstance(c.sort, S.TDict):
+            if isinstance(c.sort, S.TDict) and getattr(c, "meta", None) == "emptylit":
+                nso = S.TDict(k.sort, v.sort, ordered=True)
+                nv = nso.set(nso.empty(), k, v)
+            elif isinstance(c.sort, S.TDict):
                 nv = c.sort.set(c, self.coerce(k, c.sort.key), self.coerce(v, c.sort.val))
             elif isinstance(c.sort, S.TList):
                 k = self.coerce(k, TInt)
@@ -1127,6 +1266,8 @@ class Interp:
             if d in self.m.consts:
                 return self.const_value(d)
             raise OutOfSubset(f"class attribute {d}")
+        if isinstance(base, FuncObj) and attr == "__call__":
+            return base
         if isinstance(base, ExcObj):
             raise OutOfSubset("exception attribute")
         if isinstance(base, V):
@@ -1179,6 +1320,8 @@ class Interp:
             t = self.truthy(cur)
             go_on = self.branch(t) if isinstance(n.op, ast.And) else not self.branch(t)
             if not go_on:
+                if isinstance(n.op, ast.Or) and isinstance(cur, V) and isinstance(cur.sort, S.TOpt):
+                    return cur.sort.payload(cur)  # a truthy Optional is not None
                 return cur
             cur = self.ev(nxt)
         return cur
@@ -1357,6 +1500,9 @@ class Interp:
         if r is not NotImplemented:
             return r
         f = self.ev(n.func)
+        if isinstance(f, ExcClassObj):
+            # exception message expressions are not evaluated (documented drop: they are side-effect free strings)
+            return ExcObj(f.name, (), origin=getattr(n, "lineno", None))
         ignore = isinstance(f, FuncObj) and f.name in self.m.contracts and self.m.contracts[f.name].options.get("ignore_args")
         args = []
         for a in n.args:
@@ -1379,6 +1525,14 @@ class Interp:
 
         if isinstance(f, tuple) and f[0] == "boundbuiltin":
             return f[1](*args, **kwargs)
+        if isinstance(f, V) and isinstance(f.sort, S.TFn):
+            names = f.sort.names
+            for k, nm in enumerate(names):
+                last = k == len(names) - 1
+                if last:
+                    self.st.assume(f.t == k) if not self.spec else None
+                if last or self.branch(f.t == k):
+                    return self.call(FuncObj(nm), args, kwargs, node)
         if isinstance(f, tuple) and f[0] == "lambda":
             return self.call_lambda(f, args)
         if isinstance(f, ClassObj):
@@ -1440,7 +1594,7 @@ class Interp:
                     raise OutOfSubset(f"missing arg {nme} for {what}")
                 env[nme] = self.ev_spec_val(dflt)
             if so is not None and so is not S.TExc:
-                env[nme] = self.coerce(env[nme], so)
+                env[nme] = self.coerce_any(env[nme], so)
         return env
 
     def call_spec(self, fs, args, kwargs):
@@ -1451,6 +1605,19 @@ class Interp:
             for nme, so, _ in fs.params:
                 flat += list(env[nme].terms)
             return V(fs.ret, tuple(f(*flat) for f in fns))
+        if fs.kind == "recursive":
+            fns = self.eng.spec_ufuncs(fs)
+            flat = []
+            for nme, so, _ in fs.params:
+                flat += list(env[nme].terms)
+            app = V(fs.ret, tuple(f(*flat) for f in fns))
+            if not self.unfolding and self.qdepth == 0 and not self.in_axiom:
+                key = tuple(t.get_id() for t in app.terms)
+                if key not in self.unfolded:
+                    self.unfolded.add(key)
+                    body = self.eval_pure_body(fs, env, unfolding=True)
+                    self.defn_facts.append(z3.simplify(fs.ret.eq(app, self.coerce(body, fs.ret))))
+            return app
         # pure: inline the single return expression
         rets = [s for s in fs.ghost_body if isinstance(s, ast.Return)]
         if len(rets) != 1 or len(fs.ghost_body) != 1:
@@ -1467,11 +1634,88 @@ class Interp:
             r = self.coerce(r, fs.ret)
         return r
 
+    def eval_pure_body(self, fs, env, unfolding=False):
+        rets = [s for s in fs.ghost_body if isinstance(s, ast.Return)]
+        if len(rets) != 1 or len(fs.ghost_body) != 1:
+            raise OutOfSubset(f"spec function {fs.name} must be a single return")
+        saved = (self.st.locals, self.bound, self.spec, self.unfolding)
+        self.st.locals, self.bound, self.spec = env, {}, True
+        self.unfolding = unfolding or self.unfolding
+        try:
+            return self.ev(rets[0].value)
+        finally:
+            self.st.locals, self.bound, self.spec, self.unfolding = saved
+
+    def bind_ghosts(self, fs, env):
+        """ghost(name, expr): a fresh constant of expr's sort, extensionally equal to expr in the current (entry) state"""
+        for name, e in fs.ghosts:
+            saved = self.st.locals
+            self.st.locals = env
+            try:
+                v = self.ev_spec_val(e)
+            finally:
+                self.st.locals = saved
+            g = v.sort.fresh("ghost." + name)
+            # full (not range-limited) equality of every leaf: two bindings of the same expression are then equal
+            # terms by congruence, without any induction over list prefixes
+            for a, b in zip(g.terms, v.terms):
+                if isinstance(a.sort(), z3.ArraySortRef):
+                    j = z3.Const(S.fresh_name("gj"), a.sort().domain())
+                    self.st.assume(z3.ForAll([j], z3.Select(a, j) == z3.simplify(z3.Select(b, j))))
+                else:
+                    self.st.assume(a == b)
+            if isinstance(v.sort, S.TList):
+                self.st.assume(g.terms[0] >= 0)
+            env[name] = g
+
+    def name_value(self, v, name):
+        """replace lambda-built array leaves by fresh constants with a total pointwise definition (keeps lambdas out of
+        the arguments of spec functions inside quantified lemma statements)"""
+        if not isinstance(v, V) or not any(isinstance(t.sort(), z3.ArraySortRef) and not z3.is_const(t) for t in v.terms):
+            return v
+        g = v.sort.fresh("arg." + name)
+        for a, b in zip(g.terms, v.terms):
+            if isinstance(a.sort(), z3.ArraySortRef):
+                if z3.is_const(b):
+                    self.st.assume(a == b)
+                else:
+                    j = z3.Const(S.fresh_name("nj"), a.sort().domain())
+                    self.st.assume(z3.ForAll([j], z3.Select(a, j) == z3.simplify(z3.Select(b, j))))
+            else:
+                self.st.assume(a == b)
+        return g
+
+    def run_hints(self, where):
+        fs = self.cur_fs if self.cur_fs is not None else self.fs
+        for h in (fs.hints.get(where, []) if fs else []):
+            saved = self.spec
+            try:
+                if isinstance(h, ast.Call) and isinstance(h.func, ast.Name) and h.func.id == "let":
+                    # let(name=expr, ...): specification-only names for values at this point
+                    for kw in h.keywords:
+                        self.st.locals[kw.arg] = self.name_value(self.ev_spec_val(kw.value), kw.arg)
+                elif isinstance(h, ast.Call) and isinstance(h.func, ast.Name) and h.func.id in self.m.lemmas:
+                    self.spec = False
+                    self.ev(h)
+                elif _only_unfolds(h):
+                    # instances of the defining equations of @recursive spec functions: definitional, assumed
+                    self.st.assume(self.ev_spec(h))
+                else:
+                    # a plain fact: proved here, then available
+                    c = self.ev_spec(h)
+                    self.callsite_counter["hintfact"] = self.callsite_counter.get("hintfact", 0) + 1
+                    self.oblige(f"hint#{self.callsite_counter['hintfact']}@{where}", c, {"clause": ast.unparse(h)})
+                    self.st.assume(c)
+            finally:
+                self.spec = saved
+
     def call_contract(self, fs: FnSpec, args, kwargs, node):
         """modular call: precondition obligations, havoc assigns, assume postconditions"""
         if self.spec and fs.kind != "lemma":
             raise OutOfSubset(f"call of contract function {fs.name} inside a specification")
         env = self.bind_args(fs.params, args, kwargs, fs.name)
+        if fs.kind == "lemma":
+            env = {k: self.name_value(v, k) for k, v in env.items()}
         site = self.callsite_counter.get(fs.name, 0)
         self.callsite_counter[fs.name] = site + 1
         saved_locals, saved_old, saved_bound = self.st.locals, self.old_st, self.bound
@@ -1480,11 +1724,21 @@ class Interp:
             self.st.locals = env
             for k, r in enumerate(fs.requires):
                 self.oblige(f"pre@{fs.name}#{k}@{site}", self.ev_spec(r), {"clause": ast.unparse(r)})
+            self.bind_ghosts(fs, env)
+            for gname, _ in fs.ghosts:
+                self.call_ghosts[(fs.name, site, gname)] = env[gname]
             pre_st = self.st.copy()
             self.old_st = pre_st
             # exceptional outcomes
             for k, (en, when, strict) in enumerate(fs.raises):
-                if when is not None:
+                if when is not None and not strict:
+                    # may raise, and only when the condition holds
+                    if self.choose(2) == 1:
+                        self.st.assume(self.ev_spec(when))
+                        if not self.feasible():
+                            raise PathEnd()
+                        self.raise_from_call(fs, k, en, env, pre_st)
+                elif when is not None:
                     c = self.ev_spec(when)
                     self.st.locals = saved_locals
                     taken = self.branch(c)
@@ -1495,12 +1749,17 @@ class Interp:
                     if self.choose(2) == 1:
                         self.raise_from_call(fs, k, en, env, pre_st)
             self.havoc_assigns(fs, pre_st)
+            if fs.kind != "lemma" and (fs.options.get("allocates") or (fs.ret is not None and _mentions_ref(fs.ret))):
+                self.havoc_alloc("call")
             res = NONE
             if fs.ret is not None and fs.ret is not TNone:
                 res = fs.ret.fresh(f"ret.{fs.name}")
                 self.note_read(res)
                 if isinstance(res.sort, S.TList):
                     self.st.assume(res.terms[0] >= 0)
+                if isinstance(res.sort, S.TDict) and res.sort.ordered:
+                    self.assume_odict_wf(res)
+            self.call_results[(fs.name, site)] = res
             env2 = dict(env)
             env2["result"] = res
             self.st.locals = env2
@@ -1640,6 +1899,30 @@ def _pure_expr(n):
         if isinstance(x, (ast.Subscript, ast.Attribute)):
             return False
     return True
+
+
+def _only_unfolds(h):
+    """forall(dom.., lambda..: <conj of unfold(...)>) or unfold(...) — nothing else"""
+    if isinstance(h, ast.Call) and isinstance(h.func, ast.Name):
+        if h.func.id == "unfold":
+            return True
+        if h.func.id == "forall" and isinstance(h.args[-1], ast.Lambda):
+            return _only_unfolds(h.args[-1].body)
+    if isinstance(h, ast.BoolOp) and isinstance(h.op, ast.And):
+        return all(_only_unfolds(v) for v in h.values)
+    return False
+
+
+def _mentions_ref(so):
+    if isinstance(so, S.TRef):
+        return True
+    for attr in ("inner", "elem", "val", "key"):
+        x = getattr(so, attr, None)
+        if isinstance(x, S.Sort) and _mentions_ref(x):
+            return True
+    if isinstance(so, S.TTuple):
+        return any(_mentions_ref(e) for e in so.elems)
+    return False
 
 
 def _has_quant(f):
